@@ -175,7 +175,7 @@ def wf_violation(vm):
     if len(vm.registers) != 16:
         return "register file has {} entries".format(len(vm.registers))
     for i, r in enumerate(vm.registers):
-        if type(r) is not int or not (0 <= r < 65536):
+        if not isinstance(r, int) or isinstance(r, bool) or not (0 <= r < 65536):
             return "R{} = {!r}".format(i, r)
     if vm.registers[0] != 0:
         return "R0 = {}".format(vm.registers[0])
@@ -186,7 +186,7 @@ def wf_violation(vm):
     if len(vm.memory) > 65536:
         return "memory has {} cells".format(len(vm.memory))
     for a, c in enumerate(vm.memory):
-        if type(c) is not int or not (0 <= c < 65536):
+        if not isinstance(c, int) or isinstance(c, bool) or not (0 <= c < 65536):
             return "memory[{}] = {!r}".format(a, c)
     return None
 
